@@ -402,6 +402,35 @@ def row_levels(rep, tier='quick'):
             t = w.it.call(w.it.getattr(cls, 'create'), [], dict(operand=SK.A('opd', 'CP'), rows=rows))
             lv = tagged(t)
             n += 1
+            # several rows of one kind - and the operand with the mixfix forms - compete by *longest match*
+            # (`f(x)` next to `f`, `1.5` next to `1`, `**` next to `*`): combined with Longest, in row order
+            want_ops = ['opd'] + [f'o{i}' for i, k in enumerate(kinds) if k == 'mixfix']
+            for bucket, members in (('operands', want_ops),
+                                    ('prefixes', [f'o{i}' for i, k in enumerate(kinds) if k == 'prefix']),
+                                    ('postfixes', [f'o{i}' for i, k in enumerate(kinds) if k == 'postfix']),
+                                    ('infixes', [f'o{i}' for i, k in enumerate(kinds) if k in ('left', 'right', 'infix')])):
+                if len(members) < 2:
+                    continue
+                v = t.d.get(bucket)
+                got_cls = v.cls.name if isinstance(v, M.Obj) else type(v).__name__
+                items = v.d.get('exprs') if isinstance(v, M.Obj) else None
+
+                def label_of(x):
+                    if isinstance(x, M.AbsChild):
+                        return x.label
+                    if isinstance(x, M.Obj) and x.cls.name == 'Apply' and isinstance(x.d.get('expr1'), M.AbsChild):
+                        return x.d['expr1'].label
+                    return None
+                ok = got_cls == 'Longest' and items is not None and [label_of(x) for x in items] == members
+                rep.oblige(ok)
+                if not ok:
+                    rep.add(Finding('C02-row-levels', 'OperatorTable', bucket,
+                                    f'rows {list(kinds)}: the {len(members)} forms of `{bucket}` are combined as '
+                                    f'{got_cls}({[label_of(x) for x in (items or [])]}), expected Longest over {members} in row '
+                                    f'order: with an ordered choice a form that starts like an earlier one but extends '
+                                    f'further (`f(x)` after `f`, `1.5` after `1`) is never tried - the expression does not '
+                                    f'extend over the longest fitting run', where, {'rows': list(kinds)}))
+                    return
             seq = [(i, k, lv.get(f'o{i}')) for i, k in enumerate(kinds) if k not in ('mixfix', 'empty')]
             if any(l is None for _, _, l in seq):
                 raise AnalysisError(f'OperatorTable.create: rows {kinds}: a tagged row was not found in its bucket')
